@@ -483,7 +483,25 @@ class Engine(Executor):
             if not z3.is_true(z3.simplify(elem_guard)):
                 raise Unsupported("loop invariant on a loop over a filtered sequence")
             inv_c, inv_clause, inv_params = inv
-            inv_names = [n for n in inv_params if n in pre_vals]
+            # parameters of the invariant: `iteration`, locals / parameters of the function by name, and ROLES
+            # `carried_int_0`, `carried_bool_1`, ... = the k-th loop-carried scalar local of that type in order of its
+            # first assignment in the loop body (so that renaming a temporary does not touch the invariant)
+            order = {}
+            for node in ast.walk(ast.Module(body=stmt.body, type_ignores=[])):
+                for t in (node.targets if isinstance(node, ast.Assign) else
+                          [node.target] if isinstance(node, (ast.AugAssign, ast.AnnAssign)) else []):
+                    if isinstance(t, ast.Name):
+                        order.setdefault(t.id, (node.lineno, node.col_offset))
+            roles: Dict[str, str] = {}
+            counters: Dict[str, int] = {}
+            for n in sorted((n for n in pre_vals if n in order), key=lambda n: order[n]):
+                v0 = pre_vals[n]
+                if isinstance(v0, SV) and v0.ty in ("int", "bool", "str") and _loop_carried(stmt.body, n):
+                    k = counters.get(v0.ty, 0)
+                    counters[v0.ty] = k + 1
+                    roles[f"carried_{v0.ty}_{k}"] = n
+            self._inv_roles = roles
+            inv_names = [roles.get(n, n) for n in inv_params if roles.get(n, n) in pre_vals]
             f0 = inv_c.clause_formula(self, st, inv_clause, self._inv_env(st, inv_params, sv_int(0)))
             self.side_obligations.append((f"loop-invariant/{inv_clause}/holds-on-entry", list(st.pc), f0,
                                           f"loop invariant {inv_clause} before the first iteration"))
@@ -639,7 +657,7 @@ class Engine(Executor):
             if p == "iteration":
                 env[p] = iteration
                 continue
-            v = st.frame.locals.get(p, _UNBOUND)
+            v = st.frame.locals.get(getattr(self, "_inv_roles", {}).get(p, p), _UNBOUND)
             if v is _UNBOUND or v is _HAVOC or v is _LOOPVAR:
                 raise Unsupported(f"loop invariant reads {p}, which has no value here")
             env[p] = v
